@@ -11,10 +11,12 @@ table.
 
 from __future__ import annotations
 
+import ast
 import itertools
 from typing import Callable, Iterable
 
 from .cfg import CFG, Node
+from .src import own_nodes
 
 Classify = Callable[[Node], "tuple[str, bool] | None"]  # (variable, polarity): atom true <=> var == polarity
 
@@ -29,17 +31,52 @@ def walk(cfg: CFG, assignment: dict[str, bool], classify: Classify, start: Node 
         if n in blocked and n is not start:
             continue
         cl = classify(n) if n.kind == "cond" else None
+        known: bool | None = None
+        if cl is not None and cl[0] in assignment:
+            known = assignment[cl[0]] == cl[1]
+        elif cl is None and n.kind == "cond" and isinstance(n.ast, ast.Name):
+            known = _eval_local(cfg, n.ast.id, assignment, classify)
         for label, s in n.succ:
             if label == "exc" and not follow_exc:
                 continue
-            if cl is not None and label in ("true", "false") and cl[0] in assignment:
-                atom_true = assignment[cl[0]] == cl[1]
-                if (label == "true") != atom_true:
+            if known is not None and label in ("true", "false"):
+                if (label == "true") != known:
                     continue
             if s not in seen:
                 seen.add(s)
                 todo.append(s)
     return seen
+
+
+def _eval_local(cfg: CFG, name: str, assignment: dict[str, bool], classify: Classify) -> "bool | None":
+    """A test on a local that is assigned exactly once, from a boolean expression over
+    classifiable atoms (a hoisted condition): evaluate that expression."""
+    fn = cfg.func.node
+    assigns = [n for n in own_nodes(fn) if isinstance(n, ast.Assign) and any(isinstance(t, ast.Name) and t.id == name for t in n.targets)]
+    others = [n for n in own_nodes(fn) if isinstance(n, (ast.AugAssign, ast.NamedExpr, ast.For)) and name in {x.id for x in ast.walk(getattr(n, "target", n)) if isinstance(x, ast.Name)}]
+    if len(assigns) != 1 or others or name in cfg.func.param_names():
+        return None
+    return _eval_bool(assigns[0].value, assignment, classify)
+
+
+def _eval_bool(e: ast.expr, assignment: dict[str, bool], classify: Classify) -> "bool | None":
+    if isinstance(e, ast.BoolOp):
+        vals = [_eval_bool(v, assignment, classify) for v in e.values]
+        if isinstance(e.op, ast.And):
+            if any(v is False for v in vals):
+                return False
+            return True if all(v is True for v in vals) else None
+        if any(v is True for v in vals):
+            return True
+        return False if all(v is False for v in vals) else None
+    if isinstance(e, ast.UnaryOp) and isinstance(e.op, ast.Not):
+        v = _eval_bool(e.operand, assignment, classify)
+        return None if v is None else not v
+    fake = Node(-1, "cond", e)
+    cl = classify(fake)
+    if cl is not None and cl[0] in assignment:
+        return assignment[cl[0]] == cl[1]
+    return None
 
 
 def truth_table(cfg: CFG, variables: list[str], classify: Classify, targets: Iterable[Node], start: Node | None = None) -> dict[tuple[bool, ...], tuple[bool, bool]]:
